@@ -59,6 +59,21 @@ def p_template(t):
     return tuple(out)
 
 
+def api_path(e):
+    """the tool's own answer to 'which namespaces is this nested under' (namespaces() / full_namespaces()), without
+    the leading empty name of the global namespace; None when the element offers no such method."""
+    f = getattr(e, 'namespaces', None)
+    if not callable(f):
+        return None
+    try:
+        ns = [str(x) for x in f()]
+    except Exception as ex:
+        return ('raised %s' % type(ex).__name__,)
+    while ns and ns[0] == '':
+        ns = ns[1:]
+    return tuple(ns)
+
+
 def parent_path(e):
     out = []
     a = e.parent
@@ -82,6 +97,8 @@ class Projection:
     def klass(self, c, path):
         if parent_path(c) != path:
             self.problems.append(('parent', 'class', c.name, parent_path(c), path))
+        if api_path(c) not in (None, path):
+            self.problems.append(('namespaces()', 'class', c.name, api_path(c), path))
         base = None
         if c.parent_class:
             base = p_type(c.parent_class)
@@ -122,6 +139,8 @@ class Projection:
         if isinstance(e, parser.Enum):
             if parent_path(e) != path:
                 self.problems.append(('parent', 'enum', e.name, parent_path(e), path))
+            if api_path(e) not in (None, path):
+                self.problems.append(('namespaces()', 'enum', e.name, api_path(e), path))
             return self.enum(e)
         if isinstance(e, parser.Variable):
             if parent_path(e) != path:
